@@ -106,9 +106,40 @@ def entries(version, obj, dform, has_gm_prop, versionable):
     return out
 
 
+EXT_OBJ = "extension-definition--3f7f0c5f-5d54-4292-94ea-ec1e1952be1c"
+EXT_SCO = "extension-definition--3f7f0c5f-5d54-4292-94ea-ec1e1952be1d"
+
+
+def implicit_extension_object(which):
+    """a registered 2.1 custom type declared with extension_name: the library itself adds the 'extensions' property to every instance, AFTER the constructor
+    (and its selector validation) has run. Built programmatically, with one granular marking, without passing 'extensions'."""
+    import stix2
+    from stix2 import properties as P
+    R = stix2.registry.STIX2_OBJ_MAPS["2.1"]
+    if "x-verif-en" not in R["objects"]:
+        @stix2.v21.CustomObject("x-verif-en", [("prop", P.StringProperty()), ("items", P.ListProperty(P.StringProperty))], extension_name=EXT_OBJ)
+        class A(object):
+            pass
+    if "x-verif-eno" not in R["observables"]:
+        @stix2.v21.CustomObservable("x-verif-eno", [("prop", P.StringProperty()), ("items", P.ListProperty(P.StringProperty))], extension_name=EXT_SCO)
+        class B(object):
+            pass
+    cls = R["objects"]["x-verif-en"] if which == "object" else R["observables"]["x-verif-eno"]
+    kw = dict(prop="v", items=["a", "b"], granular_markings=[{"marking_ref": MREF, "selectors": ["prop"]}])
+    if which == "object":
+        kw.update(id="x-verif-en--3f7f0c5f-5d54-4292-94ea-ec1e1952be1e", created="2020-01-01T00:00:00.000Z", modified="2020-01-01T00:00:00.000Z")
+    return cls(**kw)
+
+
 def run_instance(case, part):
     import stix2
     env.reset()
+    if case.get("kind") == "implicit-extension":
+        obj = implicit_extension_object(case["which"])
+        dform = harness.view(obj, defaults=False)
+        if "extensions" not in dform:
+            raise RuntimeError("the implicit extension is not part of the serialization any more")
+        return explore(case, part, "2.1", obj, dform, True, case["which"] == "object")
     version, key, label = case["version"], case["key"], case["label"]
     wrapped = None
     for k2, l2, i2, w2, loc2 in harness.all_cases(version, keys=[key]):
@@ -127,8 +158,15 @@ def run_instance(case, part):
     tkey = sp.key_for_type(dform["type"])
     has_gm = "granular_markings" in sp.classes[tkey]["properties"] and dform["type"] != "bundle"
     versionable = {"created", "modified", "revoked"} <= set(sp.classes[tkey]["properties"])
+    return explore(case, part, version, obj, dform, has_gm, versionable)
+
+
+def explore(case, part, version, obj, dform, has_gm, versionable):
+    key, label = case.get("key", "custom"), case.get("label", case.get("which"))
     # a marking must already sit on the object so that remove/clear reach their selector validation
     ents = entries(version, obj, dform, has_gm, versionable)
+    if case.get("kind") == "implicit-extension":
+        ents = [e for e in ents if e[0] != "construction"]
     only = case.get("selector")
     paths = [(s, v, f) for (s, v, f) in harness.selector_paths(dform) if s.split(".")[0] != "granular_markings"]
     for sel, val, feats in paths:
@@ -183,10 +221,11 @@ def run(run):
         for key, label, inst, wrapped, loc in harness.all_cases(version):
             if th or interesting(label, inst):
                 cases.append({"version": version, "key": key, "label": label})
+    cases += [{"kind": "implicit-extension", "which": "object"}, {"kind": "implicit-extension", "which": "observable"}]
     run.mode = "DEV"
     run.rule = ("per type: maximal + minimal + every generated instance storing a falsy value or equal list elements%s; every path of the instance's JSON form and the near-miss "
                 "paths derived from it x every entry point (2 constructions, 3 queries and 4 mutators on object and dict form); states = distinct (instance, selector); "
-                "non-trivial = selector with a feature (falsy value, repeated element, through list/object)" % (" (thorough: every generated instance)" if th else ""))
+                "non-trivial = selector with a feature (falsy value, repeated element, through list/object); plus two registered custom types whose 'extensions' property is added by the library after construction" % (" (thorough: every generated instance)" if th else ""))
     run.bound = {"instances": len(cases), "entry_points": 16, "near_miss_kinds": 8}
     run.assumptions += ["independent path walker mc/spec/harness.py:selector_paths/resolves; instances from the frozen spec model",
                         "only selectors the selector syntax can spell are asserted on object forms; remove/clear: 'accepted' = not refused as an invalid selector"]
